@@ -122,6 +122,12 @@ OPS = [
     ("call", r"\.checked_sub_signed\(", [".checked_add_signed("]),
     ("call", r"\.checked_add_signed\(", [".checked_sub_signed("]),
     ("call", r"\bct_eq\(", ["eq("]),
+    ("iter", r"\.iter\(\)", [".iter().rev()", ".iter().skip(1)", ".iter().take(1)"]),
+    ("iter", r"\.keys\(\)", [".keys().take(1)"]),
+    ("range", r"\.\.=", [".."]),
+    ("range", r"(?<=\[)(\d+)\.\.", ["+1r", "-1r"]),
+    ("opt", r"\.unwrap_or\(b\"\"\)", [".unwrap_or(b\"x\")"]),
+    ("opt", r"\bSome\(([a-z_]+)\) =>", ["None =>"]),
     ("variant", r"UriElement::Path\b", ["UriElement::Query"]),
     ("variant", r"UriElement::Query\b", ["UriElement::Path"]),
     ("variant", r"DecoderTrap::Strict\b", ["DecoderTrap::Replace", "DecoderTrap::Ignore"]),
@@ -140,7 +146,7 @@ def stmt_deletions(text, masked, limit):
     return out
 
 
-def gen(outdir):
+def gen(outdir, only=None):
     os.makedirs(outdir, exist_ok=True)
     muts = []
     for f in FILES:
@@ -151,7 +157,12 @@ def gen(outdir):
             for m in re.finditer(rx, masked[:limit]):
                 old = text[m.start():m.end()]
                 for rep in reps:
-                    if name == "int":
+                    if rep in ("+1r", "-1r"):
+                        v = int(m.group(1))
+                        if v == 0 and rep == "-1r":
+                            continue
+                        new = str(v + 1 if rep == "+1r" else v - 1) + ".."
+                    elif name == "int":
                         v = int(old)
                         if v > 100000:
                             continue
@@ -160,11 +171,26 @@ def gen(outdir):
                             continue
                     else:
                         new = rep
+                    if name == "opt" and rep == "None =>":
+                        continue  # not type-correct in general
                     muts.append({"file": f, "start": m.start(), "end": m.end(), "old": old, "new": new, "op": name, "line": text.count("\n", 0, m.start()) + 1})
+        for m in re.finditer(r"\bif (?!let\b)([^{};]+?) \{", masked[:limit]):
+            a, b = m.start(1), m.end(1)
+            if "\n" in text[a:b]:
+                continue
+            for rep in ("true", "false"):
+                muts.append({"file": f, "start": a, "end": b, "old": text[a:b], "new": rep, "op": "cond", "line": text.count("\n", 0, a) + 1})
+        for m in re.finditer(r"\b([a-z_][\w:]*)\(([^(),\n]+), ([^(),\n]+)\)", masked[:limit]):
+            a, b = m.start(2), m.end(3)
+            if text[m.start(2):m.end(2)].strip() == text[m.start(3):m.end(3)].strip():
+                continue
+            muts.append({"file": f, "start": a, "end": b, "old": text[a:b], "new": text[m.start(3):m.end(3)] + ", " + text[m.start(2):m.end(2)], "op": "argswap", "line": text.count("\n", 0, a) + 1})
         for a, b in stmt_deletions(text, masked, limit):
             muts.append({"file": f, "start": a, "end": b, "old": text[a:b], "new": "", "op": "delstmt", "line": text.count("\n", 0, a) + 1})
+    if only:
+        muts = [m for m in muts if m["op"] in only]
     for i, m in enumerate(muts):
-        m["id"] = "M%04d" % i
+        m["id"] = "N%04d" % i if only else "M%04d" % i
     json.dump(muts, open(os.path.join(outdir, "all.json"), "w"), indent=0)
     by = {}
     for m in muts:
@@ -241,6 +267,6 @@ def run(outdir, workers):
 
 if __name__ == "__main__":
     if sys.argv[1] == "gen":
-        gen(sys.argv[2])
+        gen(sys.argv[2], set(sys.argv[3].split(",")) if len(sys.argv) > 3 else None)
     else:
         run(sys.argv[2], int(sys.argv[3]) if len(sys.argv) > 3 else 8)
